@@ -1,11 +1,10 @@
 #!/bin/sh
 # Re-runs every stored seeded change against the current checks: applies seeded/<id>/patch.diff to /repo, runs the
-# check of the property it breaks (meta.json "property"; for C02-m1 the C13 check), expects a VIOLATION, restores /repo.
+# check of the property it breaks (meta.json "property"), expects a VIOLATION, restores /repo.
 cd /verif
 for d in /verif/seeded/*/; do
   n=$(basename $d)
   pid=$(python3 -c "import json;print(json.load(open('$d/meta.json'))['property'])")
-  [ "$n" = "C02-m1" ] && pid=C13
   if ! git -C /repo apply --check $d/patch.diff 2>/dev/null; then echo "SKIP $n: patch no longer applies"; continue; fi
   git -C /repo apply $d/patch.diff
   out=$(./check $pid 2>&1 | grep "^VIOLATION" | head -1)
